@@ -124,13 +124,18 @@ def build_layout(rng, seq):
         pos += width
         if rng.random() < 0.1:
             lines.append("" if rng.random() < 0.5 else "   ")
-    star = rng.choice(["none", "none", "same_line", "own_line", "own_line_spaces"])
+    star = rng.choice(["none", "none", "same_line", "own_line", "own_line_spaces", "then_number", "then_length_line"])
     if star == "same_line":
         lines[-1] = lines[-1].rstrip(" ") + "*" if style != "right_numbers" else lines[-1] + "*"
     elif star == "own_line":
         lines.append("*")
     elif star == "own_line_spaces":
         lines.append("  * ")
+    elif star == "then_number":
+        lines[-1] = lines[-1].rstrip(" ") + "* %d" % len(seq)          # EMBL / UniProt style: numbering after the stop
+    elif star == "then_length_line":
+        lines.append("*")
+        lines.append("  %d  " % len(seq))
     head = rng.choice(["none", "top", "top", "after_blank"])
     if head != "none":
         hlen = rng.choice([0, 0, 1, rng.randint(0, 40), rng.randint(0, 40)])
@@ -184,6 +189,8 @@ def corruptions(rng, text, n):
 
 def cases(tier, seed):
     rng = gen.sub_rng(seed, ID)
+    for w in ["ACDEFGHIKLMNPQRSTVWYNAN", "MKVLAGGSTQINF", "NAN", "INF", "ACDEFGHIKLINFINITY", "MKTAYIAKQRNANGSQ", "DEAD", "NANINFNAN"]:
+        yield {"s": w, "o": rng.randrange(1 << 30)}
     for i in range(NLAYOUT[tier]):
         yield {"s": gen.rand_seq(rng, hi=300 if i % 5 == 0 else 90), "o": rng.randrange(1 << 30)}
 
